@@ -49,9 +49,9 @@ from vlib import env
 from checks import c22
 
 THEOREMS = [
-    "rbd_total", "rbd_perm", "rbd_depth0_reversed", "rbd_length", "rebase_shape",
-    "view_complete_once", "level1_is_lefthand", "linear_full_is_history", "limit_is_prefix",
-    "levels_is_filter", "touching_sublist", "touching_contains_modified", "graph_view_sublist",
+    "rbd_total", "rbd_perm", "rbd_length", "rbd_depth0_reversed", "rebase_shape",
+    "view_complete_once", "forward_is_rbd_of_reverse", "level1_is_lefthand", "levels_is_filter",
+    "limit_is_prefix", "graph_view_sublist", "touching_contains_modified", "touching_members",
 ]
 RULE = ("case = (history DAG with file contents, tip, one request); requests: pure view lists for reverse_by_depth / "
         "_rebase_merge_depth; per history sampled (start, end, direction, levels, limit, exclude_common_ancestry) for the "
